@@ -4,6 +4,8 @@ import os, subprocess, sys
 sys.path.insert(0, os.path.dirname(os.path.dirname(os.path.abspath(__file__))))
 from vlib import core
 ops = sys.argv[1]
+IMPL = ops.rsplit(".", 1)[0] + ".impl"
+MODEL = ops.rsplit(".", 1)[0] + ".model"
 log = open("/tmp/wdiff.log", "w")
 if "--nobuild" not in sys.argv:
     rc, out, b = core.go_build_harness("probe", "main", log)
@@ -13,10 +15,10 @@ if "--nobuild" not in sys.argv:
     if rc:
         print(out[-3000:]); sys.exit(1)
 b = os.path.join(core.WORK, "probe", "bin", "main.test")
-core.go_run_stream(b, ops, "/tmp/wdiff.impl", os.path.join(core.REPO, "server"), log, test="TestVerifWorld")
-with open(ops) as fi, open("/tmp/wdiff.model", "w") as fo:
+core.go_run_stream(b, ops, IMPL, os.path.join(core.REPO, "server"), log, test="TestVerifWorld")
+with open(ops) as fi, open(MODEL, "w") as fo:
     subprocess.run([core.DRIVER, "world"], stdin=fi, stdout=fo)
-a = open("/tmp/wdiff.impl").read().split("\n"); m = open("/tmp/wdiff.model").read().split("\n"); o = open(ops).read().split("\n")
+a = open(IMPL).read().split("\n"); m = open(MODEL).read().split("\n"); o = open(ops).read().split("\n")
 n = 0
 for i, (x, y) in enumerate(zip(a, m)):
     if x != y:
